@@ -176,3 +176,34 @@ def get_latest_refreshes_stale_sides(w: World, force: bool):
         check(n == (1 if (force or stale[s]) else 0), "a side is re-read exactly when forced or stale, once")
         if force or stale[s]:
             check(ent[s]._last_gotten == newest, "and then counts as read up to the newest change flag")
+
+
+@lemma(props=["C11"], configs="sides", raises=["AssertionError"],
+       inline=["cloudsync.sync.state:SyncState._change_oid", "cloudsync.sync.state:SyncState._change_path",
+               "cloudsync.sync.state:SyncState.lookup_oid"],
+       stubs={"cloudsync.sync.state:SyncState._update_kids": {"results": ["None"], "raises": False, "havoc": False}})
+def side_state_move_keeps_the_indexes_exact(w: World):
+    """moving a side state into an entry (`ent[side] = other[side]`, used by split, merge and rename handling), on the real
+    index code: afterwards the entry carries the incoming id and path and is found under the id; the (path, id) slot of the
+    path the entry had before no longer leads to it when it no longer carries that path; the source entry gave the side up"""
+    state = w.state
+    ent = w.entry("ent")
+    src = w.entry("src")
+    side = w.changed
+    assume(ent is not src)
+    assume(src[side].oid is not None and len(src[side].oid) > 0)
+    # the case generated here: the incoming side has an id but no path yet (path-less provider event, id set after an upload);
+    # the general case exceeds the generation budget (four index updates on the real code)
+    assume(src[side].path is None)
+    assume(not truthy(src[side].changed) and not truthy(src[1 - side].changed))
+    old_path = ent[side].path
+    new_oid, new_path = src[side].oid, src[side].path
+    ent[side] = src[side]
+    check(ent[side].oid == new_oid and ent[side].path == new_path, "the entry carries the incoming id and path")
+    check(state.lookup_oid(side, new_oid) is ent, "and is found under the id")
+    check(src[side].oid is None and src[side].path is None, "the source entry gave the side up")
+    if truthy(old_path) and old_path != new_path:
+        if old_path in state._paths[side]:
+            inner = state._paths[side][old_path]
+            if new_oid in inner:
+                check(inner[new_oid] is not ent, "no (path, id) slot leads to an entry that no longer carries the path")
